@@ -17,6 +17,9 @@ TYPOOL = [
     ("<U as Tr>::Out", "U", False), ("Wrap<'static, T, 3>", "T", False), ("Box<dyn Tr<T>>", "T", False),
     ("Foo<Item = U>", "U", False), ("[u8; N]", "", False), ("*const V", "V", True), ("&'static [U]", "U", False),
     ("std::vec::Vec<u8>", "", True),
+    # several inputs, only one of them (or only the output) generic
+    ("Box<dyn Fn(T, u8) -> u8>", "T", False), ("Box<dyn Fn(u8, u16) -> U>", "U", False), ("fn(u8, T) -> u8", "T", False),
+    ("fn(u8, u16) -> V", "V", False), ("Box<dyn Fn(u8, u16)>", "", False),
 ]
 
 
